@@ -92,10 +92,20 @@ def run(ctx, rep):
             rep.finding(R2, f'C15.R2/Predicated.{attr}', m.relfile(LEX), f'Predicated.{attr}', f'is not the set of {attr} among the parameters (got {r!r})')
     # Predicated constants
     init = m.func(LEX, 'Predicated.__init__')
-    ok = 'self.predicates = frozenset((pred,))' in astq.u(init) and 'self.params = params' in astq.u(init)
+    itc = Interp(dict(Predicate=lambda v: v, Parameter=lambda v: v, Sentence=lambda v: v, Operator=lambda v: v, Quantifier=lambda v: v, Variable=lambda v: v,
+                      frozenset=frozenset, tuple=tuple, TypeError=TypeError, IndexError=IndexError,
+                      Emsg=Obj('Emsg', ArityMismatch=lambda *a_: TypeError('arity'))), where='lang/lex.py constructors')
+    itc.g['isinstance'] = lambda o, t: isinstance(o, t) if isinstance(t, type) else False
+    mk = lambda n, **kw: Obj(n, spec=(n,), ident=('X', (n,)), sort_tuple=(1, len(n)), **kw)
+    PR = mk('F', arity=2)
+    p1, p2 = mk('a'), mk('b')
+    sp = Obj('self', TYPE=Obj('TYPE', rank=5))
+    r = itc.safe(init, [sp, PR, (p1, p2)])
+    ok = not isinstance(r, Raises) and getattr(sp, 'predicate', None) is PR and tuple(getattr(sp, 'params', ())) == (p1, p2) and getattr(sp, 'predicates', None) == frozenset((PR,))
     rep.instance(R2, ok=ok, nontrivial=('Predicated', 'predicates'))
     if not ok:
-        rep.finding(R2, 'C15.R2/Predicated.predicates', m.loc(LEX, init), 'Predicated.__init__', 'predicates is no longer {the predicate}')
+        rep.finding(R2, 'C15.R2/Predicated.predicates', m.loc(LEX, init), 'Predicated.__init__',
+                    f'after construction predicate/params/predicates are {getattr(sp, "predicate", None)!r}/{getattr(sp, "params", None)!r}/{getattr(sp, "predicates", None)!r}, expected the predicate, the parameters in order, {{the predicate}}')
     for attr, want in (('operators', 'EMPTY_SEQ'), ('quantifiers', 'EMPTY_SEQ'), ('atomics', 'EMPTY_SET')):
         g = getter_or_attr(m, 'Predicated', attr)
         ok = g == ('const', want)
@@ -110,16 +120,21 @@ def run(ctx, rep):
         if not ok:
             rep.finding(R2, f'C15.R2/Atomic.{attr}', m.relfile(LEX), f'Atomic.{attr}', f'is {g}, expected the empty {want}')
     ai = m.func(LEX, 'Atomic.__init__')
-    ok = 'self.atomics = frozenset((self,))' in astq.u(ai)
+    sa_ = Obj('self')
+    ita = Interp(dict(frozenset=frozenset, super=lambda *a_: Obj('super', __init__=lambda *x: None)), where='lang/lex.py Atomic.__init__')
+    r = ita.safe(ai, [sa_, 0, 0])
+    ok = getattr(sa_, 'atomics', None) == frozenset((sa_,))
     rep.instance(R2, ok=ok, nontrivial=('Atomic', 'atomics'))
     if not ok:
-        rep.finding(R2, 'C15.R2/Atomic.atomics', m.loc(LEX, ai), 'Atomic.__init__', 'atomics is no longer {self}')
+        rep.finding(R2, 'C15.R2/Atomic.atomics', m.loc(LEX, ai), 'Atomic.__init__', f'atomics is {getattr(sa_, "atomics", r)!r}, expected {{self}}')
     # base Sentence.substitute returns self (atoms have no parameters)
     bs = m.func(LEX, 'Sentence.substitute')
-    ok = [astq.u(s_) for s_ in astq.stmts(bs)] == ['return self']
+    ss = Obj('atom')
+    r = it.safe(bs, [ss, 'PNEW', 'POLD'])
+    ok = r is ss
     rep.instance(R1, ok=ok, nontrivial='Sentence.substitute')
     if not ok:
-        rep.finding(R1, 'C15.R1/Sentence.substitute', m.loc(LEX, bs), 'Sentence.substitute', 'the default (atomic) substitution is no longer the identity')
+        rep.finding(R1, 'C15.R1/Sentence.substitute', m.loc(LEX, bs), 'Sentence.substitute', f'the default (atomic) substitution returns {r!r}, not the sentence itself')
 
     # ---- mock child sentence with arbitrary attribute values
     def child(tag):
@@ -220,25 +235,30 @@ def run(ctx, rep):
         rep.instance(R1, ok=ok, nontrivial=('negative', s_._name))
         if not ok:
             rep.finding(R1, f'C15.R1/Sentence.negative/{s_._name}', m.loc(LEX, fn), 'Sentence.negative', f'negative() of {s_._name} gives {r!r}, expected {want!r}')
-    for name, frag in (('__neg__', 'return self.negative()'), ('__invert__', 'return Operator.Negation(self)')):
+    so = Obj('s', negative=lambda: 'NEGATIVE')
+    for name, want in (('__neg__', 'NEGATIVE'), ('__invert__', ('NEGATE', so))):
         f_ = m.func(LEX, f'Sentence.{name}')
-        ok = frag in astq.u(f_)
+        r = it.safe(f_, [so])
+        ok = r == want
         rep.instance(R1, ok=ok, nontrivial=name)
         if not ok:
-            rep.finding(R1, f'C15.R1/Sentence.{name}', m.loc(LEX, f_), f'Sentence.{name}', f'is no longer `{frag}`')
-    # constructors keep operands/params in the given order
+            rep.finding(R1, f'C15.R1/Sentence.{name}', m.loc(LEX, f_), f'Sentence.{name}', f'gives {r!r}, expected {want!r}')
+    # constructors keep operands/params in the given order; indexing reads them
     oi = m.func(LEX, 'Operated.__init__')
-    ok = 'self.operands = operands = tuple(map(Sentence, operands))' in astq.u(oi) and 'self.lhs = operands[0]' in astq.u(oi) and 'self.rhs = operands[-1]' in astq.u(oi)
+    OPR = mk('Conj', arity=2)
+    o1, o2 = mk('A'), mk('BB')
+    so2 = Obj('self', TYPE=Obj('TYPE', rank=7))
+    r = itc.safe(oi, [so2, OPR, (o1, o2)])
+    ok = not isinstance(r, Raises) and tuple(getattr(so2, 'operands', ())) == (o1, o2) and getattr(so2, 'lhs', None) is o1 and getattr(so2, 'rhs', None) is o2 \
+        and getattr(so2, 'operator', None) is OPR
     rep.instance(R2, ok=ok, nontrivial='Operated.__init__')
     if not ok:
-        rep.finding(R2, 'C15.R2/Operated.__init__', m.loc(LEX, oi), 'Operated.__init__', 'operands / lhs / rhs are no longer the given operands in order')
-    og = m.func(LEX, 'Operated.__getitem__')
-    ok = 'return self.operands[index]' in astq.u(og)
-    rep.instance(R2, ok=ok, nontrivial='Operated.__getitem__')
-    if not ok:
-        rep.finding(R2, 'C15.R2/Operated.__getitem__', m.loc(LEX, og), 'Operated.__getitem__', 'iteration over an operated sentence no longer yields its operands')
-    pg = m.func(LEX, 'Predicated.__getitem__')
-    ok = 'return self.params[index]' in astq.u(pg)
-    rep.instance(R2, ok=ok, nontrivial='Predicated.__getitem__')
-    if not ok:
-        rep.finding(R2, 'C15.R2/Predicated.__getitem__', m.loc(LEX, pg), 'Predicated.__getitem__', 'iteration over a predicated sentence no longer yields its parameters')
+        rep.finding(R2, 'C15.R2/Operated.__init__', m.loc(LEX, oi), 'Operated.__init__',
+                    f'operator/operands/lhs/rhs after construction: {getattr(so2, "operator", None)!r}/{getattr(so2, "operands", None)!r}/{getattr(so2, "lhs", None)!r}/{getattr(so2, "rhs", None)!r}; expected the given operator and operands in order ({r!r})')
+    for cls, attr in (('Operated', 'operands'), ('Predicated', 'params')):
+        g_ = m.func(LEX, f'{cls}.__getitem__')
+        o = Obj('s', **{attr: ('x0', 'x1', 'x2')})
+        ok = it.safe(g_, [o, 1]) == 'x1' and it.safe(g_, [o, -1]) == 'x2'
+        rep.instance(R2, ok=ok, nontrivial=f'{cls}.__getitem__')
+        if not ok:
+            rep.finding(R2, f'C15.R2/{cls}.__getitem__', m.loc(LEX, g_), f'{cls}.__getitem__', f'indexing / iteration no longer reads the {attr} in order')
